@@ -341,6 +341,26 @@ func (m *Machine) topReturn(st *State, fr *Frame, rets []Value) {
 				continue
 			}
 		}
+		// locals named in the clause: their value when the function returns
+		if blk := m.curBlock(fr); blk != nil {
+			b2 := map[string]Value{}
+			for k, v := range bind {
+				b2[k] = v
+			}
+			need := false
+			for _, n := range paramNames(e) {
+				if _, have := b2[n]; !have {
+					need = true
+				}
+			}
+			if need {
+				func() {
+					defer func() { recover() }()
+					m.localBindingsAt(st, fr, blk, blk, paramNames(e), b2)
+				}()
+				bind = b2
+			}
+		}
 		v, ok := m.evalClause(st, e, bind)
 		if !ok {
 			continue
@@ -1634,4 +1654,9 @@ func (m *Machine) paramCell(fr *Frame, name string) *Ptr {
 		}
 	}
 	return nil
+}
+
+// curBlock: the basic block the frame is executing.
+func (m *Machine) curBlock(fr *Frame) *ssa.BasicBlock {
+	return fr.block
 }
